@@ -487,10 +487,10 @@ example : callerMayPanic
     { fn := "op.ValidateEndSessionRequest", callee := "op.VerifyIDTokenHint", target := "claims", errType := "IDTokenHintExpiredError", guarded := false, derefs := 3, passes := 0 }
     "oidc.CheckIssuedAt" = true := by decide
 
-/-- locals that are assigned only inside function literals but used outside: exactly the one of the known finding F-C09f
-    (`op.Authorize`: `client`, nil when an `AuthorizeValidator` replaces the default validation closure) -/
-theorem closure_assigned_known : GenC09.closureAssigned = knownClosureAssigned := by decide
-theorem c09f_witness : ("op.Authorize", "client") ∈ GenC09.closureAssigned := by decide
+/-- no local of pkg/op that is declared without a value and used later gets its value ONLY inside a function literal
+    (whether such a local holds a value would depend on which literal ran: F-C09f, `client` of `op.Authorize` behind an
+    `AuthorizeValidator`, repaired) -/
+theorem closure_assigned_none : GenC09.closureAssigned = [] := by decide
 
 /-- verifiers and their callers together -/
 theorem c09_verifiers_and_callers_total (fn : String) (t : Tok) :
